@@ -44,6 +44,21 @@ def templates():
                 [("qubit a", "0"), ("qubit b", "1")], 0))
     out.append(("two variables mixed", "function main() -> void {\n  @tracked qubit a;\n  {\n    @tracked qubit c;\n    x(c);\n    measure c;\n  }\n  measure a;\n  echo(\"e\");\n}\n",
                 [("qubit c", "1"), ("qubit a", "0")], 1))
+    # measurements made inside the argument of echo (their side effects must not depend on whether echo output is shown)
+    out.append(("echo of a measurement", "function main() -> void {\n  @tracked qubit q;\n  x(q);\n  echo(measure q);\n}\n", [("qubit q", "1")], 1))
+    out.append(("echo of measuring calls",
+                "function readout(qubit t) -> bit {\n  bit b = measure t;\n  return b;\n}\nfunction main() -> void {\n  @tracked qubit[2] r;\n  x(r[0]);\n"
+                "  echo(\"r0=\" + readout(r[0]));\n  echo(readout(r[1]));\n}\n", [("qubit[] r", "10")], 2))
+    out.append(("echo of a measuring method", cls.replace("public constructor() -> Probe = default;",
+                                                        "public constructor() -> Probe = default;\n  public function read() -> bit {\n    bit b = measure q;\n    return b;\n  }")
+                + "function main() -> void {\n  {\n    Probe p = new Probe();\n    x(p.q);\n    echo(\"p=\" + p.read());\n  }\n}\n", [("Probe.q", "1")], 1))
+    # tracked fields of generic classes and of classes deriving from a generic instantiation
+    gcls = ("class Cell<T> {\n  @tracked public qubit q;\n  public T v;\n  public constructor(T x) -> Cell<T> {\n    this.v = x;\n  }\n}\n"
+            "class Probe2 extends Cell<int> {\n  public constructor() -> Probe2 {\n    super(3);\n  }\n}\n")
+    out.append(("generic tracked fields", gcls + "function main() -> void {\n  {\n    Cell<int> c = new Cell<int>(1);\n    x(c.q);\n    measure c.q;\n  }\n"
+                "  {\n    Cell<float> d = new Cell<float>(1.5f);\n    measure d.q;\n  }\n  {\n    Probe2 p = new Probe2();\n    x(p.q);\n    measure p.q;\n  }\n"
+                "  Cell<int> last = new Cell<int>(2);\n  echo(\"g\");\n}\n",
+                [("Cell<int>.q", "1"), ("Cell<float>.q", "0"), ("Probe2.q", "1"), ("Cell<int>.q", "?")], 1))
     return out
 
 
